@@ -357,10 +357,17 @@ func mentionsValue(v ssa.Value, pred func(ssa.Value) bool, depth int) bool {
 
 // R-C08-BOUNDS: every reflect Index with a template-supplied index is behind 0 <= i < Len().
 func ruleC08Bounds(p *Prog, a *Anchors, r *Report, res *ssa.Function) {
-	r.Begin("R-C08-BOUNDS", "sequence indexing in the resolver is reached only for 0 <= i < Len() of the same value; the other edge yields the empty value, not an error or a panic", 2)
-	for _, c := range reflectCallsIn(p, res, "Index") {
+	r.Begin("R-C08-BOUNDS", "sequence indexing in the resolver is reached only for 0 <= i < Len() of the same value; the other edge yields the empty value, not an error or a panic", 1)
+	for _, c := range reflectCallsInCluster(p, res, "Index") {
 		idx := c.Common().Args[1]
 		recv := c.Common().Args[0]
+		if c.Parent() != res {
+			// in a helper only an index the helper is handed counts (a template-supplied index); its own loops over a
+			// value (isComparable walking an array) are the typestate rule's matter
+			if _, isP := stripLoad(idx).(*ssa.Parameter); !isP {
+				continue
+			}
+		}
 		key := "resolve:Index"
 		lower := Guarded(c, func(cond ssa.Value, pol bool) bool {
 			bo, ok := cond.(*ssa.BinOp)
@@ -632,8 +639,28 @@ func ruleC08Steps(p *Prog, a *Anchors, r *Report) {
 // anything it cannot convert; it must have been shown to be an integer, or l["foo"] silently means l[0].
 func ruleC08IndexIsInteger(p *Prog, a *Anchors, r *Report, res *ssa.Function) {
 	r.Begin("R-C08-INTIDX", "a computed list index is the Integer() of a value that IsInteger() held for: a non-number subscript is not turned into index 0", 1)
-	for _, c := range reflectCallsIn(p, res, "Index") {
-		idx := c.Common().Args[1]
+	type idxSite struct {
+		at  ssa.Instruction
+		idx ssa.Value
+	}
+	var sites []idxSite
+	for _, c := range reflectCallsInCluster(p, res, "Index") {
+		idx := stripLoad(c.Common().Args[1])
+		// the index of a helper (elementAt(seq, i)) is judged where the helper is called
+		if pa, isP := idx.(*ssa.Parameter); isP && pa.Parent() != res {
+			acts := paramActualSites(p, pa)
+			if acts == nil {
+				sites = append(sites, idxSite{c, idx})
+			}
+			for _, as := range acts {
+				sites = append(sites, idxSite{as.site, as.val})
+			}
+			continue
+		}
+		sites = append(sites, idxSite{c, idx})
+	}
+	for _, sv := range sites {
+		c, idx := sv.at, sv.idx
 		ic, ok := stripConv(idx).(*ssa.Call)
 		if !ok || ic.Common().StaticCallee() == nil || ic.Common().StaticCallee().Name() != "Integer" || !p.InPkg(ic.Common().StaticCallee()) {
 			continue // a parse-time integer (a.1)
@@ -760,4 +787,49 @@ func ruleC08Pure(p *Prog, r *Report, res *ssa.Function) {
 	if n == 0 {
 		r.Bad("none", "-", "no resolver function analysed")
 	}
+}
+
+// reflectCallsInCluster: reflect.Value.<m> calls in f and in the unexported package helpers it calls statically
+// (depth 2) — a maintainer may move the operation into a small helper (elementAt).
+func reflectCallsInCluster(p *Prog, f *ssa.Function, m string) []*ssa.Call {
+	var out []*ssa.Call
+	for _, fn := range clusterOf(p, f, 2) {
+		if fn != f && (fn.Signature.Recv() != nil && structOf(fn.Signature.Recv().Type()) != nil && structOf(fn.Signature.Recv().Type()).Obj().Name() == "Value") {
+			continue // the accessors of Value have their own rules
+		}
+		if fn != f && fn.Object() != nil && fn.Object().Exported() {
+			continue
+		}
+		out = append(out, reflectCallsIn(p, fn, m)...)
+	}
+	return out
+}
+
+type actualSite struct {
+	site ssa.Instruction
+	val  ssa.Value
+}
+
+// paramActualSites: for a parameter of an unexported, only statically called package function, the call sites with
+// the value passed there (nil if the function may be called in a way we do not see).
+func paramActualSites(p *Prog, pa *ssa.Parameter) []actualSite {
+	f := pa.Parent()
+	if f == nil || f.Parent() != nil || (f.Object() != nil && f.Object().Exported()) || !p.staticOnly(f, nil) {
+		return nil
+	}
+	idx := indexOfParam(f, pa)
+	node := p.CG.Nodes[f]
+	if node == nil || len(node.In) == 0 {
+		return nil
+	}
+	var out []actualSite
+	for _, edge := range node.In {
+		site, isInstr := edge.Site.(ssa.Instruction)
+		args := callArgs(edge.Site.Common())
+		if !isInstr || !p.InPkg(edge.Caller.Func) || idx >= len(args) {
+			return nil
+		}
+		out = append(out, actualSite{site, args[idx]})
+	}
+	return out
 }
